@@ -20,7 +20,7 @@
  *   h_cred --mat DIR --root DIR --family F --replay 'S:def,RWK,C:def/inh'            (one history, verbose)
  *   h_cred --mat DIR --root DIR --family F --list                                    (alphabet)
  *
- * families: main | files | attrs | split | bad:file:<kind>:<item> | bad:value:<kind>:<item>
+ * families: main | files | attrs | kube | split | bad:file:<kind>:<item> | bad:value:<kind>:<item>
  */
 #define _GNU_SOURCE
 #include "hcommon.h"
@@ -273,8 +273,8 @@ static const char *hex(const unsigned char *p, int n)
 /* ------------------------------------------------------------------------------------------ */
 /* the world: a virtual file system + XCM_TLS_CERT                                            */
 /* ------------------------------------------------------------------------------------------ */
-enum { D_LIVE, D_LINK, D_FLINK, D_BAD, D_SA, D_SB, ND };
-static const char *D_NAME[ND] = { "live", "link", "flink", "bad", "sA", "sB" };
+enum { D_LIVE, D_LINK, D_FLINK, D_BAD, D_SA, D_SB, D_KUBE, ND };
+static const char *D_NAME[ND] = { "live", "link", "flink", "bad", "sA", "sB", "kube" };
 enum badkind { BK_NONE, BK_MISSING, BK_EMPTY, BK_GARBAGE, BK_TRUNC, BK_DANGLING, BK_DIR, BK_MISMATCH };
 static const char *BK_NAME[] = { "none", "missing", "empty", "garbage", "trunc", "dangling", "dir", "mismatch" };
 static const char GARBAGE[] = "-----BEGIN CERTIFICATE-----\nthis is not base64 at all !!\n-----END CERTIFICATE-----\n";
@@ -291,10 +291,16 @@ struct world {
     int live_broken;   /* the item g_bad_item of live/ currently is the family's bad thing */
     int link_set;      /* link -> sA | sB */
     int flink_set;     /* flink/<item>.pem -> sX/<item>.pem */
-    int env_dir;       /* XCM_TLS_CERT = live | link */
+    int env_dir;       /* XCM_TLS_CERT = live | link | kube */
+    /* kube/: the Kubernetes secret-volume layout.  <item>.pem -> ..data/<item>.pem (never touched again),
+       ..data -> ..gen1 | ..gen2 (directory symlink), ..genN/<item>.pem regular files */
+    int kdata;         /* generation ..data points to (0, 1) */
+    int gen_set[2];    /* SET_A / SET_B: certificate and key of generation g */
+    int gen_tc[2];     /* trust bundle of generation g: 0 = root2+root, 1 = root only */
 };
 
-static const struct world WORLD0 = { SET_A, 0, SET_B, SET_A, D_LIVE };
+static const struct world WORLD0 = { SET_A, 0, SET_B, SET_A, D_LIVE, 0, { SET_A, SET_B }, { 0, 1 } };
+static int g_use_kube;
 
 /* text of a bad item (NULL: unreadable) */
 static const char *bad_text(int item)
@@ -321,6 +327,13 @@ static const char *vfs_content(const struct world *w, int dir, int item)
     case D_BAD: return item == g_bad_item ? bad_text(item) : g_set[SET_A][item];
     case D_SA: return g_set[SET_A][item];
     case D_SB: return g_set[SET_B][item];
+    case D_KUBE: {
+        /* what the path RESOLVES to right now: item link -> ..data -> generation */
+        int g = w->kdata;
+        if (item == IT_TC)
+            return w->gen_tc[g] ? g_root : g_tc_both;
+        return g_set[w->gen_set[g]][item];
+    }
     }
     return NULL;
 }
@@ -332,8 +345,8 @@ enum { F_NONE, F_FILE, F_VALUE };
 struct ditem { int form; int dir; const char *val; };
 struct desig { struct ditem it[NIT]; };
 
-enum cfg { CFG_DEF, CFG_INH, CFG_FILE, CFG_VAL, CFG_S1, CFG_S2, CFG_S3, CFG_S4, CFG_S5, CFG_C2, CFG_BADF, CFG_BADV, NCFG };
-static const char *CFG_NAME[NCFG] = { "def", "inh", "file", "val", "s1", "s2", "s3", "s4", "s5", "c2", "badf", "badv" };
+enum cfg { CFG_DEF, CFG_INH, CFG_FILE, CFG_VAL, CFG_S1, CFG_S2, CFG_S3, CFG_S4, CFG_S5, CFG_C2, CFG_BADF, CFG_BADV, CFG_KUBE, NCFG };
+static const char *CFG_NAME[NCFG] = { "def", "inh", "file", "val", "s1", "s2", "s3", "s4", "s5", "c2", "badf", "badv", "kube" };
 
 static void desig_values(struct desig *d, const char *cert, const char *key, const char *tc)
 {
@@ -362,6 +375,10 @@ static void cfg_desig(int cfg, struct desig *d)
     case CFG_BADF:
         for (int i = 0; i < NIT; i++)
             d->it[i] = (struct ditem){ F_FILE, D_BAD, NULL };
+        break;
+    case CFG_KUBE:
+        for (int i = 0; i < NIT; i++)
+            d->it[i] = (struct ditem){ F_FILE, D_KUBE, NULL };
         break;
     case CFG_BADV:
         desig_values(d, g_set[SET_A][IT_CERT], g_set[SET_A][IT_KEY], g_set[SET_A][IT_TC]);
@@ -398,8 +415,16 @@ static void desig_eval(const struct desig *d, const struct world *w, struct iden
 /* ------------------------------------------------------------------------------------------ */
 /* operations, families                                                                       */
 /* ------------------------------------------------------------------------------------------ */
-enum opk { OP_RWF, OP_RWK, OP_MVO, OP_FLD, OP_FLF, OP_ENV, OP_BRK, OP_FIX, OP_SRV, OP_CONN, OP_X, OP_XS };
-static const char *OPK_NAME[] = { "RWF", "RWK", "MVO", "FLD", "FLF", "ENV", "BRK", "FIX", "S", "C", "X", "XS" };
+enum opk { OP_RWF, OP_RWK, OP_MVO, OP_FLD, OP_FLF, OP_ENV, OP_BRK, OP_FIX, OP_SRV, OP_CONN, OP_X, OP_XS,
+           /* kube/ layout: the final-component links stay, what they resolve to changes */
+           OP_KDP,     /* re-point ..data to the other generation (symlink + rename, as the kubelet does) */
+           OP_KRW,     /* rewrite cert+key of the current generation in place (equal size, fresh mtime) */
+           OP_KMV,     /* rename new cert+key files over those of the current generation */
+           OP_KTW,     /* rewrite the trust bundle of the current generation in place (other roots: flips acceptance) */
+           OP_KTM,     /* rename a new trust bundle over it */
+           OP_ENK };   /* XCM_TLS_CERT: kube <-> live */
+static const char *OPK_NAME[] = { "RWF", "RWK", "MVO", "FLD", "FLF", "ENV", "BRK", "FIX", "S", "C", "X", "XS",
+                                  "KDP", "KRW", "KMV", "KTW", "KTM", "ENK" };
 struct op { int k, c1, c2; char tok[24]; };
 
 #define MAXOPS 32
@@ -467,6 +492,21 @@ static int setup_family(const char *fam)
         add_op(OP_CONN, CFG_VAL, CFG_INH);
         add_op(OP_CONN, CFG_DEF, CFG_FILE);
         add_op(OP_CONN, CFG_DEF, CFG_VAL);
+        add_op(OP_X, 0, 0);
+        add_op(OP_XS, 0, 0);
+    } else if (!strcmp(fam, "kube")) {
+        /* credential paths whose FINAL component is a symlink that is never replaced; designated through the
+           default directory (ENK + def) and through by-file attributes (kube); c2 is a client of the other
+           trust domain, acceptable only while the resolved trust bundle holds root2 */
+        g_use_kube = 1;
+        for (int k = OP_KDP; k <= OP_ENK; k++)
+            add_op(k, 0, 0);
+        add_op(OP_SRV, CFG_DEF, 0);
+        add_op(OP_SRV, CFG_KUBE, 0);
+        add_op(OP_CONN, CFG_DEF, CFG_INH);
+        add_op(OP_CONN, CFG_KUBE, CFG_INH);
+        add_op(OP_CONN, CFG_DEF, CFG_KUBE);
+        add_op(OP_CONN, CFG_C2, CFG_INH);
         add_op(OP_X, 0, 0);
         add_op(OP_XS, 0, 0);
     } else if (!strcmp(fam, "split")) {
@@ -576,6 +616,14 @@ static void model_apply(struct model *m, const struct op *o, struct expect *e)
     case OP_FLD: m->w.link_set = m->w.link_set == SET_A ? SET_B : SET_A; break;
     case OP_FLF: m->w.flink_set = m->w.flink_set == SET_A ? SET_B : SET_A; break;
     case OP_ENV: m->w.env_dir = m->w.env_dir == D_LIVE ? D_LINK : D_LIVE; break;
+    case OP_KDP: m->w.kdata ^= 1; break;
+    case OP_KRW: case OP_KMV: {
+        int g = m->w.kdata;
+        m->w.gen_set[g] = m->w.gen_set[g] == SET_A ? SET_B : SET_A;
+        break;
+    }
+    case OP_KTW: case OP_KTM: m->w.gen_tc[m->w.kdata] ^= 1; break;
+    case OP_ENK: m->w.env_dir = m->w.env_dir == D_KUBE ? D_LIVE : D_KUBE; break;
     case OP_BRK:
         if (m->w.live_broken)
             e->feasible = 0;
@@ -651,7 +699,7 @@ static void model_apply(struct model *m, const struct op *o, struct expect *e)
     m->ophist[m->nsteps] = o->k;
 }
 
-static int world_is_update(int k) { return k <= OP_FIX; }
+static int world_is_update(int k) { return k <= OP_FIX || k >= OP_KDP; }
 
 /* why does the observed identity differ from the designated one?  (names the signature) */
 static void mismatch_cause(const struct model *m, const struct desig *d_doc, const struct desig *d_h1,
@@ -866,6 +914,27 @@ static void fs_setup(const struct world *w)
                 write_new(p, g_set[SET_A][i], T0);
         }
     }
+    if (g_use_kube) {
+        snprintf(p, sizeof p, "%s/kube", g_scratch);
+        mkdir(p, 0755);
+        for (int g = 0; g < 2; g++) {
+            snprintf(p, sizeof p, "%s/kube/..gen%d", g_scratch, g + 1);
+            mkdir(p, 0755);
+            for (int i = 0; i < NIT; i++) {
+                struct world tmp = *w;
+                tmp.kdata = g;
+                snprintf(p, sizeof p, "%s/kube/..gen%d/%s.pem", g_scratch, g + 1, IT_NAME[i]);
+                write_new(p, vfs_content(&tmp, D_KUBE, i), T0);
+            }
+        }
+        snprintf(p, sizeof p, "%s/kube/..data", g_scratch);
+        make_symlink(w->kdata ? "..gen2" : "..gen1", p);
+        for (int i = 0; i < NIT; i++) {
+            path_of(D_KUBE, i, p, sizeof p);
+            snprintf(t, sizeof t, "..data/%s.pem", IT_NAME[i]);
+            make_symlink(t, p);
+        }
+    }
     snprintf(p, sizeof p, "%s/%s", g_scratch, D_NAME[w->env_dir]);
     setenv("XCM_TLS_CERT", p, 1);
 }
@@ -932,6 +1001,48 @@ static void fs_update(const struct op *o, const struct world *after)
         }
         break;
     case OP_ENV:
+        snprintf(p, sizeof p, "%s/%s", g_scratch, D_NAME[after->env_dir]);
+        setenv("XCM_TLS_CERT", p, 1);
+        break;
+    case OP_KDP: {
+        /* atomically: new link under a temporary name, renamed over ..data; cert.pem/key.pem/tc.pem stay */
+        snprintf(t, sizeof t, "%s/kube/..data_tmp", g_scratch);
+        if (symlink(after->kdata ? "..gen2" : "..gen1", t) < 0)
+            internal("symlink %s: %s", t, strerror(errno));
+        set_mtime(t, T0, 0, 1);
+        snprintf(p, sizeof p, "%s/kube/..data", g_scratch);
+        if (rename(t, p) < 0)
+            internal("rename %s: %s", p, strerror(errno));
+        break;
+    }
+    case OP_KRW: case OP_KMV: case OP_KTW: case OP_KTM:
+        for (int i = 0; i < NIT; i++) {
+            int is_tc = o->k == OP_KTW || o->k == OP_KTM;
+            if ((i == IT_TC) != is_tc)
+                continue;
+            const char *text = vfs_content(after, D_KUBE, i);
+            snprintf(p, sizeof p, "%s/kube/..gen%d/%s.pem", g_scratch, after->kdata + 1, IT_NAME[i]);
+            if (o->k == OP_KRW || o->k == OP_KTW) {
+                struct stat st, s2;
+                if (stat(p, &st) < 0)
+                    internal("stat %s: %s", p, strerror(errno));
+                int fd = open(p, O_WRONLY | O_TRUNC);
+                if (fd < 0 || write(fd, text, strlen(text)) != (ssize_t)strlen(text))
+                    internal("rewrite %s: %s", p, strerror(errno));
+                close(fd);
+                set_mtime(p, fresh_mtime(), 0, 0);
+                stat(p, &s2);
+                if (s2.st_ino != st.st_ino)
+                    internal("rewrite in place changed the inode of %s", p);
+            } else {
+                snprintf(t, sizeof t, "%s.new", p);
+                write_new(t, text, fresh_mtime());
+                if (rename(t, p) < 0)
+                    internal("rename %s: %s", p, strerror(errno));
+            }
+        }
+        break;
+    case OP_ENK:
         snprintf(p, sizeof p, "%s/%s", g_scratch, D_NAME[after->env_dir]);
         setenv("XCM_TLS_CERT", p, 1);
         break;
@@ -1250,6 +1361,27 @@ static int do_conn(struct model *m, const struct op *o, const struct expect *e)
         if (r != 1) {
             fail_errno = -r;
             fail_side = "traffic";
+        }
+    }
+    /* Same root cause as the identity form: the accepted socket took everything (trust bundle included) from the
+       directory XCM_TLS_CERT named when the server socket was created, and the outcome of the handshake is the
+       one that directory gives, not the one the directory designated now gives. */
+    {
+        int differ = 0;
+        for (int i = 0; i < NIT; i++)
+            if (e->da_h1.it[i].form != e->da_doc.it[i].form || e->da_h1.it[i].dir != e->da_doc.it[i].dir ||
+                e->da_h1.it[i].val != e->da_doc.it[i].val)
+                differ = 1;
+        int est_h1 = e->c.ok && h1.ok && ref_accepts(&h1, e->c.trust) && ref_accepts(&e->c, h1.trust);
+        int est = !fail_errno;
+        if (differ && o->c2 == CFG_INH && est != e->established && est == est_h1) {
+            snprintf(sig, sizeof sig, "C18/identity/role=accept/cfg=%s/uses-XCM_TLS_CERT-of-server-creation/tp=tls", la);
+            violation(sig, "the connection was %s although the material designated at accept time (trust mask %u) demands "
+                      "the opposite; the accepted socket used the directory XCM_TLS_CERT named when the server socket was "
+                      "created (trust mask %u)", est ? "established" : "refused", e->a.trust, h1.trust);
+            CALL("xcm_close", xcm_close(c));
+            CALL("xcm_close", xcm_close(a));
+            return 0;
         }
     }
     vlog("  handshake: %s%s%s   expected: %s", fail_errno ? "failed at " : "established", fail_side,
